@@ -193,6 +193,15 @@ fn plan_of(step: &Value) -> Plan {
     }
     p.fail_p = step.get("fail_p").and_then(|x| x.as_f64()).unwrap_or(0.0);
     p.fail_seed = step.get("fail_seed").and_then(|x| x.as_u64()).unwrap_or(1);
+    // {"verb": "remove_file", "content": [bytes], "kind": "PermissionDenied"}: the block holding that content
+    if let Some(a) = step.get("fail_block").and_then(|x| x.as_array()) {
+        for f in a {
+            let content: Vec<u8> = serde_json::from_value(f["content"].clone()).unwrap_or_default();
+            let hash = decode::blake2b_hex(&content);
+            p.fail_paths.push((f["verb"].as_str().unwrap_or("remove_file").to_string(), format!("d/{}/{}", &hash[..3], hash),
+                               f["kind"].as_str().unwrap_or("Other").to_string()));
+        }
+    }
     if let Some(v) = step.get("fail_verbs").and_then(|x| x.as_array()) {
         p.fail_verbs = v.iter().filter_map(|x| x.as_str().map(|s| s.to_string())).collect();
     }
@@ -692,7 +701,7 @@ impl Runner {
         let actor = st.get("actor").and_then(|x| x.as_str()).unwrap_or("bk").to_string();
         let (h, m, s, excl, owner) = Self::backup_options(st);
         let src_paths: BTreeSet<Vec<Vec<u8>>> = src_tree.iter().map(|n| n.p.clone()).collect();
-        let injected = plan.crash_at.is_some() || !plan.fail.is_empty() || plan.fail_p > 0.0;
+        let injected = plan.crash_at.is_some() || !plan.fail.is_empty() || plan.fail_p > 0.0 || !plan.fail_paths.is_empty();
         self.log.emit(json!({"ev": "call", "actor": actor, "fn": "backup", "brk": false, "follow": !tree::BIG.load(std::sync::atomic::Ordering::SeqCst) && st.get("mutate_during").is_none(), "H": h.min(1_000_000_000), "M": m.min(1_000_000_000),
             "S": s.min(1_000_000_000), "excl": excl, "match": match_facts(&excl, &src_paths), "owner": owner,
             "bands": [], "dry": false, "injected": injected, "own_tree": own_tree,
@@ -773,7 +782,7 @@ impl Runner {
         let bands: Vec<u32> = st.get("bands").and_then(|x| x.as_array()).map(|a| a.iter().filter_map(|x| x.as_u64().map(|n| n as u32)).collect()).unwrap_or_default();
         let dry = st.get("dry").and_then(|x| x.as_bool()).unwrap_or(false);
         let break_lock = st.get("break_lock").and_then(|x| x.as_bool()).unwrap_or(false);
-        let injected = plan.crash_at.is_some() || !plan.fail.is_empty() || plan.fail_p > 0.0;
+        let injected = plan.crash_at.is_some() || !plan.fail.is_empty() || plan.fail_p > 0.0 || !plan.fail_paths.is_empty();
         self.log.emit(json!({"ev": "call", "actor": actor, "fn": "delete", "brk": break_lock, "follow": true, "H": 0, "M": 0, "S": 0, "excl": [], "match": [], "owner": true,
             "bands": bands, "dry": dry, "injected": injected, "own_tree": false, "tree": []}));
         let icpt = ActorIcpt::new(&actor, &self.arch, self.log.clone(), plan, sched.clone());
